@@ -276,11 +276,11 @@ func c06Run(r *simkit.Run) {
 
 func init() {
 	simkit.Register(&simkit.Harness{
-		ID:   "C06",
-		Run:  c06Run,
-		Real: []string{"isaac.LastPoint.Before / IsNewBallot / IsNewVoteproofbyPoint", "isaacstates.Ballotbox.SetLastPoint / SetLastPointFromVoteproof / LastPoint", "isaac.LastVoteproofsHandler.Set / IsNew / Last"},
-		Stub: []string{},
-		Rule: "each run draws the object (ballotbox last point or last-voteproofs store), 1-5 concurrent setters x 1-8 updates with positions from the domain height 33..36 x round 0..2 x INIT/ACCEPT x majority x suffrage-confirm (duplicates and stale updates are frequent); after every kernel step the position is read from the object and every change is judged by an executable form of the statement: never a lower height, an earlier round/stage only for a suffrage-confirm result over a non-majority, no position taken twice; at every position lower-height ballots and voteproofs must be judged not new. distinct = event-log hash",
+		ID:          "C06",
+		Run:         c06Run,
+		Real:        []string{"isaac.LastPoint.Before / IsNewBallot / IsNewVoteproofbyPoint", "isaacstates.Ballotbox.SetLastPoint / SetLastPointFromVoteproof / LastPoint", "isaac.LastVoteproofsHandler.Set / IsNew / Last"},
+		Stub:        []string{},
+		Rule:        "each run draws the object (ballotbox last point or last-voteproofs store), 1-5 concurrent setters x 1-8 updates with positions from the domain height 33..36 x round 0..2 x INIT/ACCEPT x majority x suffrage-confirm (duplicates and stale updates are frequent); after every kernel step the position is read from the object and every change is judged by an executable form of the statement: never a lower height, an earlier round/stage only for a suffrage-confirm result over a non-majority, no position taken twice; at every position lower-height ballots and voteproofs must be judged not new. distinct = event-log hash",
 		Assumptions: []string{"LastVoteproofsHandler.ForceSetLast is not part of the workload: it is the explicit override used when the node re-synchronises", "a position is the five-tuple of the statement; the position is read from the object, not from return values"},
 	})
 }
